@@ -49,7 +49,7 @@ Proof.
   rewrite !with_chars_encode by exact H. destruct (n <? 0); repeat split; reflexivity.
 Qed.
 
-Theorem substr_l : forall cs pos len, cps_ok cs = true -> pos <> i64_min ->
+Theorem substr_l : forall cs pos len, cps_ok cs = true ->
   eval_sfn SSubstr [VText (encode_utf8 cs); VInt pos; VInt len] =
     OVal (VText (encode_utf8 (
       if pos =? 0 then [] else
@@ -59,26 +59,26 @@ Theorem substr_l : forall cs pos len, cps_ok cs = true -> pos <> i64_min ->
     OVal (VText (encode_utf8 (
       if pos =? 0 then [] else skip_z (if 0 <? pos then pos - 1 else Z.max 0 (zlen cs + pos)) cs))).
 Proof.
-  intros cs pos len H Hmin.
-  cbn [eval_sfn arg_text arg_int opt_int nth_error]. rewrite !with_chars_encode by exact H. cbv zeta.
+  intros cs pos len H.
+  cbn [eval_sfn arg_text arg_int opt_arg_int nth_error]. rewrite !with_chars_encode by exact H. cbv zeta.
   destruct (Z.ltb_spec 0 pos) as [P|P].
   { replace (pos =? 0) with false by lia. unfold text, empty_text.
     destruct (Z.leb_spec 0 len); destruct (Z.ltb_spec len 0); try lia; split; reflexivity. }
   destruct (Z.ltb_spec pos 0) as [N|N].
-  { replace (pos =? 0) with false by lia. destruct (Z.eqb_spec pos i64_min); [contradiction|].
+  { replace (pos =? 0) with false by lia.
     replace (zlen cs - - pos) with (zlen cs + pos) by lia. unfold text, empty_text.
     destruct (Z.leb_spec 0 len); destruct (Z.ltb_spec len 0); try lia; split; reflexivity. }
   replace (pos =? 0) with true by lia. split; reflexivity.
 Qed.
 
 (* the result agrees with the character-level definition wherever that is unambiguous *)
-Theorem substr_spec_ok_l : forall cs pos len, cps_ok cs = true -> pos <> i64_min ->
+Theorem substr_spec_ok_l : forall cs pos len, cps_ok cs = true ->
   str_obs_ok (str_exact SSubstr [VText (encode_utf8 cs); VInt pos; VInt len])
              (eval_sfn SSubstr [VText (encode_utf8 cs); VInt pos; VInt len]) = true /\
   str_obs_ok (str_exact SSubstr [VText (encode_utf8 cs); VInt pos])
              (eval_sfn SSubstr [VText (encode_utf8 cs); VInt pos]) = true.
 Proof.
-  intros cs pos len H Hmin. destruct (substr_l cs pos len H Hmin) as [E3 E2]. rewrite E3, E2.
+  intros cs pos len H. destruct (substr_l cs pos len H) as [E3 E2]. rewrite E3, E2.
   unfold str_exact. cbn [existsb is_null orb cps_of]. rewrite decode_encode_l by exact H.
   pose proof (Nat2Z.is_nonneg (length cs)) as Hl. fold (zlen cs) in Hl.
   destruct (Z.eqb_spec pos 0) as [Z0|Z0].
@@ -95,52 +95,33 @@ Proof.
     + apply zlist_eqb_refl.
 Qed.
 
-(* ---- INSTR returns a BYTE offset *)
-Theorem instr_l : forall h n, cps_ok h = true -> cps_ok n = true ->
-  eval_sfn SInstr [VText (encode_utf8 h); VText (encode_utf8 n)] =
-    OVal (VInt (match find_pre n h with Some pre => blen (encode_utf8 pre) + 1 | None => 0 end)).
-Proof.
-  intros h n Hh Hn. cbn [eval_sfn arg_text nth_error]. rewrite find_bytes_chars by assumption.
-  destruct (find_pre n h); cbn [option_map]; [f_equal; f_equal; lia|reflexivity].
-Qed.
-
 Lemma find_pre_ok n h pre : cps_ok h = true -> find_pre n h = Some pre -> cps_ok pre = true.
 Proof.
   intros Hh F. destruct (find_pre_split n h pre F) as [rest [E _]]. subst h.
   rewrite cps_ok_app in Hh. apply andb_true_iff in Hh. tauto.
 Qed.
 
-(* ... which is the character position exactly when only one-byte characters precede the match *)
-Theorem instr_class0_l : forall h n, cps_ok h = true -> cps_ok n = true ->
-  sfn_class SInstr [VText (encode_utf8 h); VText (encode_utf8 n)] = 0 ->
+(* ---- INSTR: the byte offset found by str::find is converted by counting the characters of the slice
+   before it; the slice always ends on a character boundary (no panic) and the answer is the CHARACTER position *)
+Theorem instr_l : forall h n, cps_ok h = true -> cps_ok n = true ->
   eval_sfn SInstr [VText (encode_utf8 h); VText (encode_utf8 n)] =
-    OVal (VInt (match find_pre n h with Some pre => zlen pre + 1 | None => 0 end)) /\
+    OVal (VInt (match find_pre n h with Some pre => zlen pre + 1 | None => 0 end)).
+Proof.
+  intros h n Hh Hn. cbn [eval_sfn arg_text nth_error]. rewrite find_bytes_chars by assumption.
+  destruct (find_pre n h) as [pre|] eqn:F; cbn [option_map]; [|reflexivity].
+  destruct (find_pre_split _ _ _ F) as [rest [E _]].
+  assert (Hp : cps_ok pre = true) by (apply (find_pre_ok n h pre Hh F)).
+  rewrite E at 1. replace (0 + blen (encode_utf8 pre)) with (blen (encode_utf8 pre)) by lia.
+  rewrite firstn_encode_prefix, decode_encode_l by exact Hp. reflexivity.
+Qed.
+
+Theorem instr_spec_ok_l : forall h n, cps_ok h = true -> cps_ok n = true ->
   str_obs_ok (str_exact SInstr [VText (encode_utf8 h); VText (encode_utf8 n)])
              (eval_sfn SInstr [VText (encode_utf8 h); VText (encode_utf8 n)]) = true.
 Proof.
-  intros h n Hh Hn Hc. rewrite instr_l by assumption.
-  unfold sfn_class in Hc. rewrite !decode_encode_l in Hc by assumption.
+  intros h n Hh Hn. rewrite instr_l by assumption.
   unfold str_exact. cbn [existsb is_null orb cps_of]. rewrite !decode_encode_l by assumption.
-  destruct (find_pre n h) as [pre|] eqn:F.
-  - destruct (is_ascii pre) eqn:A; [|discriminate].
-    rewrite blen_encode_ascii by exact A. split; [reflexivity|]. cbn [str_obs_ok]. apply Z.eqb_refl.
-  - split; reflexivity.
-Qed.
-
-Theorem instr_class4_wrong_l : forall h n, cps_ok h = true -> cps_ok n = true ->
-  sfn_class SInstr [VText (encode_utf8 h); VText (encode_utf8 n)] = 4 ->
-  str_obs_ok (str_exact SInstr [VText (encode_utf8 h); VText (encode_utf8 n)])
-             (eval_sfn SInstr [VText (encode_utf8 h); VText (encode_utf8 n)]) = false.
-Proof.
-  intros h n Hh Hn Hc. rewrite instr_l by assumption.
-  unfold sfn_class in Hc. rewrite !decode_encode_l in Hc by assumption.
-  unfold str_exact. cbn [existsb is_null orb cps_of]. rewrite !decode_encode_l by assumption.
-  destruct (find_pre n h) as [pre|] eqn:F; [|discriminate].
-  destruct (is_ascii pre) eqn:A; [discriminate|].
-  cbn [str_obs_ok]. apply Z.eqb_neq. intros E.
-  assert (Hp : cps_ok pre = true) by (apply (find_pre_ok n h pre Hh F)).
-  assert (B : blen (encode_utf8 pre) = blen pre) by (unfold zlen in E; fold (blen pre) in E; lia).
-  rewrite (blen_encode_eq_ascii pre Hp B) in A. discriminate.
+  cbn [str_obs_ok]. apply Z.eqb_refl.
 Qed.
 
 (* ---- LOCATE: the byte search runs on a re-encoded suffix and its offset is converted back by
@@ -177,8 +158,8 @@ Proof.
     rewrite E. replace (0 + blen (encode_utf8 pre)) with (blen (encode_utf8 pre)) by lia.
     rewrite firstn_encode_prefix, decode_encode_l by exact Hp. f_equal. f_equal. lia. }
   intros n h start Hn Hh. split.
-  - cbn [eval_sfn arg_text opt_int nth_error]. cbv zeta. apply G; assumption.
-  - cbn [eval_sfn arg_text opt_int nth_error]. cbv zeta.
+  - cbn [eval_sfn arg_text opt_arg_int nth_error]. cbv zeta. apply G; assumption.
+  - cbn [eval_sfn arg_text opt_arg_int nth_error]. cbv zeta.
     rewrite (G n h 1 Hn Hh). change (1 <? 1) with false. change (1 - 1) with 0. cbv iota.
     unfold skip_z. pose proof (Nat2Z.is_nonneg (length h)) as Hl. fold (zlen h) in Hl.
     replace (Z.min 0 (zlen h)) with 0 by lia. cbn [Z.to_nat skipn]. reflexivity.
@@ -222,8 +203,8 @@ Theorem pad_l : forall cs pcs n, cps_ok cs = true -> cps_ok pcs = true -> 0 <= n
 Proof.
   intros cs pcs n Hc Hp Hn. unfold max_model in *.
   cbn [eval_sfn]. unfold pad_common. cbn [arg_text arg_int nth_error].
-  rewrite !(with_chars_encode cs) by exact Hc. cbv zeta.
-  unfold as_usize. replace (n <? 0) with false by lia. split.
+  replace (n <? 0) with false by lia.
+  rewrite !(with_chars_encode cs) by exact Hc. cbv zeta. split.
   - intros L. replace (n <=? zlen cs) with true by lia. split; reflexivity.
   - intros L Hne. replace (n <=? zlen cs) with false by lia.
     assert (Hb : blen (encode_utf8 pcs) =? 0 = false).
@@ -231,13 +212,20 @@ Proof.
       rewrite encode_utf8_cons. destruct (encode_cp_shape c Hc0) as [b0 [conts [E _]]]. rewrite E.
       cbn [app]. rewrite blen_cons. pose proof (blen_nonneg (conts ++ encode_utf8 t)). lia. }
     rewrite Hb. rewrite !(with_chars_encode pcs) by exact Hp.
-    change (2 ^ 63) with 9223372036854775808. replace (9223372036854775808 <=? n) with false by lia.
-    unfold max_model. replace (n <=? 65536) with true by lia. cbn [andb].
+    unfold max_model. replace (n <=? 65536) with true by lia.
     repeat split.
     + unfold zlen at 1. rewrite app_length. fold (zlen (cycle pcs (n - zlen cs))). fold (zlen cs).
       rewrite Nat2Z.inj_add. fold (zlen (cycle pcs (n - zlen cs))). fold (zlen cs). rewrite cycle_length by lia. lia.
     + unfold zlen at 1. rewrite app_length, Nat2Z.inj_add. fold (zlen (cycle pcs (n - zlen cs))). fold (zlen cs).
       rewrite cycle_length by lia. lia.
+Qed.
+
+(* a negative length gives NULL (no cast to usize any more) *)
+Theorem pad_negative_l : forall s p n, n < 0 ->
+  eval_sfn SLpad [VText s; VInt n; VText p] = OVal VNull /\ eval_sfn SRpad [VText s; VInt n; VText p] = OVal VNull.
+Proof.
+  intros s p n Hn. cbn [eval_sfn]. unfold pad_common. cbn [arg_text arg_int nth_error].
+  replace (n <? 0) with true by lia. split; reflexivity.
 Qed.
 
 (* ---- TRIM family, UPPER / LOWER on ASCII, CONCAT, REPEAT *)
@@ -284,19 +272,21 @@ Theorem str_null_l : forall s n p,
   to_sql (eval_sfn SLpad [VNull; VInt n; VText p]) = OVal VNull /\ to_sql (eval_sfn SLpad [VText s; VNull; VText p]) = OVal VNull /\
   to_sql (eval_sfn SLpad [VText s; VInt n; VNull]) = OVal VNull /\ to_sql (eval_sfn SRpad [VText s; VInt n; VNull]) = OVal VNull /\
   to_sql (eval_sfn SRepeat [VNull; VInt n]) = OVal VNull /\ to_sql (eval_sfn SRepeat [VText s; VNull]) = OVal VNull /\
-  to_sql (eval_sfn STrim [VNull]) = OVal VNull /\ to_sql (eval_sfn SStrcmp [VText s; VNull]) = OVal VNull.
+  to_sql (eval_sfn STrim [VNull]) = OVal VNull /\ to_sql (eval_sfn SStrcmp [VText s; VNull]) = OVal VNull /\
+  (* a NULL optional argument too (it used to be ignored) *)
+  to_sql (eval_sfn SSubstr [VText s; VInt n; VNull]) = OVal VNull /\ to_sql (eval_sfn SLocate [VText p; VText s; VNull]) = OVal VNull.
 Proof. intros. repeat split; reflexivity. Qed.
 
-(* ---- refutations: panics and wrong positions on the faithful model *)
-Theorem str_refuted_l :
-  (* INSTR('éa', 'a') = 3, the character position is 2 *)
-  eval_sfn SInstr [VText [195; 169; 97]; VText [97]] = OVal (VInt 3) /\
-  str_exact SInstr [VText [195; 169; 97]; VText [97]] = SInt 2 /\ sfn_class SInstr [VText [195; 169; 97]; VText [97]] = 4 /\
-  (* SUBSTR('abc', i64::MIN) panics: `-pos` overflows *)
-  eval_sfn SSubstr [VText [97; 98; 99]; VInt i64_min] = OPanic /\ sfn_class SSubstr [VText [97; 98; 99]; VInt i64_min] = 5 /\
-  (* LPAD('a', -1, 'x') panics: String::with_capacity(usize::MAX) *)
-  eval_sfn SLpad [VText [97]; VInt (-1); VText [120]] = OPanic /\ sfn_class SLpad [VText [97]; VInt (-1); VText [120]] = 6 /\
-  (* SUBSTR('abc', 2, NULL) = 'bc', not NULL *)
-  eval_sfn SSubstr [VText [97; 98; 99]; VInt 2; VNull] = OVal (VText [98; 99]) /\
-  str_exact SSubstr [VText [97; 98; 99]; VInt 2; VNull] = SNull /\ sfn_class SSubstr [VText [97; 98; 99]; VInt 2; VNull] = 7.
+(* ---- the witnesses of the repaired findings F-C20-4 .. F-C20-7 on the new model *)
+Theorem str_witnesses_l :
+  (* INSTR('ea' with e-acute, 'a') = 2, the character position (was 3, the byte offset) *)
+  eval_sfn SInstr [VText [195; 169; 97]; VText [97]] = OVal (VInt 2) /\
+  str_exact SInstr [VText [195; 169; 97]; VText [97]] = SInt 2 /\
+  (* SUBSTR('abc', i64::MIN) = 'abc' (panicked) *)
+  eval_sfn SSubstr [VText [97; 98; 99]; VInt i64_min] = OVal (VText [97; 98; 99]) /\
+  (* LPAD / RPAD('a', -1, 'x') = NULL (LPAD panicked, RPAD looped) *)
+  eval_sfn SLpad [VText [97]; VInt (-1); VText [120]] = OVal VNull /\ eval_sfn SRpad [VText [97]; VInt (-1); VText [120]] = OVal VNull /\
+  (* SUBSTR('abc', 2, NULL) = NULL (was 'bc') *)
+  eval_sfn SSubstr [VText [97; 98; 99]; VInt 2; VNull] = ONone /\
+  str_exact SSubstr [VText [97; 98; 99]; VInt 2; VNull] = SNull.
 Proof. vm_compute. repeat split. Qed.
